@@ -11,6 +11,7 @@ import (
 	"runtime"
 	"runtime/debug"
 	"strconv"
+	"strings"
 	"syscall"
 	"testing/iotest"
 
@@ -70,14 +71,22 @@ func childMain() {
 		}
 		return w
 	}
-	for idx := 0; idx < hd.N; idx++ {
+	if v := os.Getenv("VERIF_C08_CHILD_OFFSET"); v != "" && from > 0 {
+		// restarted after a death: continue at the byte offset of input number `from`
+		off, _ := strconv.ParseInt(v, 10, 64)
+		if _, err := f.Seek(off, io.SeekStart); err != nil {
+			say("BROKEN seek: %v", err)
+			os.Exit(4)
+		}
+		dec = encjson.NewDecoder(bufio.NewReaderSize(f, 1<<20))
+	} else {
+		from = 0
+	}
+	for idx := from; idx < hd.N; idx++ {
 		var in hInput
 		if err := dec.Decode(&in); err != nil {
 			say("BROKEN batch entry %d: %v", idx, err)
 			os.Exit(4)
-		}
-		if idx < from {
-			continue
 		}
 		var wd *world
 		if in.Target != "static" {
@@ -238,6 +247,9 @@ func runInput(in hInput, w *world) (res hResult) {
 	if panicked {
 		return res
 	}
+	if alloc > allocBound(len(in.Data)) {
+		res.Site = biggestAllocSite()
+	}
 	if err != nil {
 		res.Outcome = "error"
 		res.Msg = numRe.ReplaceAllString(err.Error(), "N")
@@ -254,12 +266,66 @@ func runInput(in hInput, w *world) (res hResult) {
 	return res
 }
 
+// biggestAllocSite names the innermost /repo function of the allocation site that has
+// allocated the most bytes below runInput, from the runtime's heap profile (allocations
+// above MemProfileRate, 512 KiB, are always recorded). It only labels the signature; the
+// verdict comes from TotalAlloc.
+func biggestAllocSite() string {
+	runtime.GC()
+	runtime.GC()
+	n, _ := runtime.MemProfile(nil, true)
+	recs := make([]runtime.MemProfileRecord, n+64)
+	n, ok := runtime.MemProfile(recs, true)
+	if !ok {
+		return "unknown"
+	}
+	var (
+		best, bestAny           string
+		bestBytes, bestAnyBytes int64
+	)
+	for i := range recs[:n] {
+		frames := runtime.CallersFrames(recs[i].Stack())
+		site, through := "", false
+		for {
+			f, more := frames.Next()
+			if site == "" && strings.Contains(f.Function, "synnaxlabs/") && !strings.HasPrefix(f.File, "/verif/") {
+				site = shortFunc(f.Function)
+			}
+			if strings.HasPrefix(f.Function, "main.runInput") {
+				through = true
+			}
+			if !more {
+				break
+			}
+		}
+		if site == "" {
+			continue
+		}
+		if through && recs[i].AllocBytes > bestBytes {
+			best, bestBytes = site, recs[i].AllocBytes
+		}
+		if recs[i].AllocBytes > bestAnyBytes {
+			bestAny, bestAnyBytes = site, recs[i].AllocBytes
+		}
+	}
+	if best != "" {
+		return best
+	}
+	if bestAny != "" {
+		return bestAny
+	}
+	return "unknown"
+}
+
 // checkFrame: a frame returned without error must be usable: every series has a data
 // type, fixed-size data is a whole number of samples, and Len/Count do not panic.
 func checkFrame(fr frame.Frame, binaryPath bool) (n int, bad string) {
+	if k, s := len(fr.RawKeys()), len(fr.RawSeries()); k != s {
+		return 0, fmt.Sprintf("keys-series-length-mismatch: frame has %d keys and %d series (iterating it panics)", k, s)
+	}
 	defer func() {
 		if p := recover(); p != nil {
-			bad = fmt.Sprintf("using the returned frame panicked: %v", p)
+			bad = fmt.Sprintf("unusable: walking the returned frame panicked: %v", p)
 		}
 	}()
 	for k, s := range fr.Entries() {
@@ -271,18 +337,18 @@ func checkFrame(fr frame.Frame, binaryPath bool) (n int, bad string) {
 			continue
 		}
 		if s.DataType == telem.UnknownT {
-			return n, fmt.Sprintf("series of key %d has no data type", k)
+			return n, fmt.Sprintf("no-data-type: series of key %d has no data type", k)
 		}
 		if !s.DataType.IsVariable() {
 			d := int(s.DataType.Density())
 			if d == 0 || len(s.Data)%d != 0 {
-				return n, fmt.Sprintf("series of key %d: %d bytes is not a whole number of %s samples", k, len(s.Data), s.DataType)
+				return n, fmt.Sprintf("ragged-data: series of key %d: %d bytes is not a whole number of %s samples", k, len(s.Data), s.DataType)
 			}
 		}
 		_ = s.Len()
 	}
 	if n != fr.Count() {
-		return n, fmt.Sprintf("Count()=%d but %d entries", fr.Count(), n)
+		return n, fmt.Sprintf("count-mismatch: Count()=%d but %d entries", fr.Count(), n)
 	}
 	return n, ""
 }
